@@ -417,23 +417,33 @@ Definition model_comb (e : expr) (p : bytes) : sx :=
   let '(se, ev') := sync w in
   SL [SZ n; of_zlist we; SL (observe 0 ev); of_zlist se; SL (observe 0 ev')].
 
+Definition kind (i : sx) : Z := sx_z (sx_nth i 0).
+Definition wkind (i : sx) : Z := sx_z (sx_nth i 1).
+
+Definition model_stdlog (i : sx) : sx :=
+  let '(n, e, ms) := stdlog_write Fixed (sx_bool (sx_nth i 2)) (sx_b (sx_nth i 3)) (sx_b (sx_nth i 4)) in
+  SL [SZ n; SZ e; of_blist ms].
+Definition model_testing (i : sx) : sx :=
+  let '(n, e, ls, f) := testing_write (sx_bool (sx_nth i 2)) (sx_b (sx_nth i 3)) in
+  SL [SZ n; SZ e; of_blist ls; of_bool f].
+Definition model_zapio (i : sx) : sx :=
+  let ps := map sx_b (sx_l (sx_nth i 3)) in
+  SL [of_zlist (zapio_writes (sx_bool (sx_nth i 2)) ps); of_zlist (map (fun _ => 0) ps)].
+Definition model_bws (i : sx) : sx :=
+  let '(ns, ev) := bws_run (eff_size (sx_z (sx_nth i 2))) bws0 (map dec_bop (sx_l (sx_nth i 3))) in
+  SL [of_zlist ns; of_zlist (map (fun _ => 0) ns); SL (map enc_sev ev)].
+Definition model_lock (i : sx) : sx :=
+  let s := run (locked_prog (dec_prog (sx_nth i 1))) (dec_sched (sx_nth i 2)) in
+  SL [of_nat (maxc s); of_nat (fin s)].
+
 Definition model (i : sx) : sx :=
-  match sx_z (sx_nth i 0) with
-  | 1 => model_comb (dec_expr (sx_nth i 1)) (sx_b (sx_nth i 2))
-  | 2 =>
-      match sx_z (sx_nth i 1) with
-      | 0 => let '(n, e, ms) := stdlog_write Fixed (sx_bool (sx_nth i 2)) (sx_b (sx_nth i 3)) (sx_b (sx_nth i 4)) in
-             SL [SZ n; SZ e; of_blist ms]
-      | 1 => let '(n, e, ls, f) := testing_write (sx_bool (sx_nth i 2)) (sx_b (sx_nth i 3)) in
-             SL [SZ n; SZ e; of_blist ls; of_bool f]
-      | 2 => let ps := map sx_b (sx_l (sx_nth i 3)) in
-             SL [of_zlist (zapio_writes (sx_bool (sx_nth i 2)) ps); of_zlist (map (fun _ => 0) ps)]
-      | _ => let '(ns, ev) := bws_run (eff_size (sx_z (sx_nth i 2))) bws0 (map dec_bop (sx_l (sx_nth i 3))) in
-             SL [of_zlist ns; of_zlist (map (fun _ => 0) ns); SL (map enc_sev ev)]
-      end
-  | _ => let s := run (locked_prog (dec_prog (sx_nth i 1))) (dec_sched (sx_nth i 2)) in
-         SL [of_nat (maxc s); of_nat (fin s)]
-  end.
+  if kind i =? 1 then model_comb (dec_expr (sx_nth i 1)) (sx_b (sx_nth i 2))
+  else if kind i =? 2 then
+    (if wkind i =? 0 then model_stdlog i
+     else if wkind i =? 1 then model_testing i
+     else if wkind i =? 2 then model_zapio i
+     else model_bws i)
+  else model_lock i.
 
 (* ---------- the oracle ---------- *)
 Definition spec_comb (e : expr) (p : bytes) (o : sx) : bool :=
@@ -465,48 +475,55 @@ Fixpoint is_prefix (a b : bytes) : bool :=
 Definition sink_bytes (o : sx) : bytes := concat (map sx_b (sx_l o)).
 Definition all_zero (o : sx) : bool := forallb (fun x => sx_eqb x (SZ 0)) (sx_l o).
 
+(* full count, nil error, the trimmed text logged iff enabled *)
+Definition spec_stdlog (i o : sx) : bool :=
+  let p := sx_b (sx_nth i 3) in
+  sx_eqb o (SL [SZ (zlen p); SZ 0; of_blist (if sx_bool (sx_nth i 2) then [sx_b (sx_nth i 4)] else [])]).
+Definition spec_testing (i o : sx) : bool :=
+  let p := sx_b (sx_nth i 3) in
+  sx_eqb (sx_nth o 0) (SZ (zlen p)) && sx_eqb (sx_nth o 1) (SZ 0) &&
+  match sx_l (sx_nth o 2) with [SB l] => stripped l p | _ => false end &&
+  sx_eqb (sx_nth o 3) (of_bool (sx_bool (sx_nth i 2))) &&
+  (length (sx_l o) =? 4)%nat.
+Definition spec_zapio (i o : sx) : bool :=
+  let ps := map sx_b (sx_l (sx_nth i 3)) in
+  sx_eqb o (SL [of_zlist (map zlen ps); of_zlist (map (fun _ => 0) ps)]).
+Definition spec_bws (i o : sx) : bool :=
+  let ops := map dec_bop (sx_l (sx_nth i 3)) in
+  sx_eqb (sx_nth o 0) (of_zlist (bop_lens ops)) &&
+  sx_eqb (sx_nth o 1) (of_zlist (map (fun _ => 0) (bop_lens ops))) &&
+  is_prefix (sink_bytes (sx_nth o 2)) (bop_bytes ops).
+(* never two wrapped calls in flight; every call completed *)
+Definition spec_lock (i o : sx) : bool :=
+  (sx_z (sx_nth o 0) <=? 1) && (0 <=? sx_z (sx_nth o 0)) &&
+  sx_eqb (sx_nth o 1) (of_nat (total_calls (dec_prog (sx_nth i 1)))).
+
 Definition spec (i o : sx) : bool :=
-  match sx_z (sx_nth i 0) with
-  | 1 => spec_comb (dec_expr (sx_nth i 1)) (sx_b (sx_nth i 2)) o
-  | 2 =>
-      match sx_z (sx_nth i 1) with
-      | 0 => (* full count, nil error, the trimmed text logged iff enabled *)
-          let p := sx_b (sx_nth i 3) in
-          sx_eqb o (SL [SZ (zlen p); SZ 0; of_blist (if sx_bool (sx_nth i 2) then [sx_b (sx_nth i 4)] else [])])
-      | 1 =>
-          let p := sx_b (sx_nth i 3) in
-          sx_eqb (sx_nth o 0) (SZ (zlen p)) && sx_eqb (sx_nth o 1) (SZ 0) &&
-          match sx_l (sx_nth o 2) with [SB l] => stripped l p | _ => false end &&
-          sx_eqb (sx_nth o 3) (of_bool (sx_bool (sx_nth i 2))) &&
-          (length (sx_l o) =? 4)%nat
-      | 2 =>
-          let ps := map sx_b (sx_l (sx_nth i 3)) in
-          sx_eqb o (SL [of_zlist (map zlen ps); of_zlist (map (fun _ => 0) ps)])
-      | _ =>
-          let ops := map dec_bop (sx_l (sx_nth i 3)) in
-          sx_eqb (sx_nth o 0) (of_zlist (bop_lens ops)) &&
-          sx_eqb (sx_nth o 1) (of_zlist (map (fun _ => 0) (bop_lens ops))) &&
-          is_prefix (sink_bytes (sx_nth o 2)) (bop_bytes ops)
-      end
-  | _ => (* never two wrapped calls in flight; every call completed *)
-      (sx_z (sx_nth o 0) <=? 1) && (0 <=? sx_z (sx_nth o 0)) &&
-      sx_eqb (sx_nth o 1) (of_nat (total_calls (dec_prog (sx_nth i 1))))
-  end.
+  if kind i =? 1 then spec_comb (dec_expr (sx_nth i 1)) (sx_b (sx_nth i 2)) o
+  else if kind i =? 2 then
+    (if wkind i =? 0 then spec_stdlog i o
+     else if wkind i =? 1 then spec_testing i o
+     else if wkind i =? 2 then spec_zapio i o
+     else spec_bws i o)
+  else spec_lock i o.
 
 (* ---------- validity of a case (what the generators guarantee) ---------- *)
+Definition wf_comb (i : sx) : bool :=
+  let e := dec_expr (sx_nth i 1) in
+  x_syncer e && x_typed e && x_dom (zlen (sx_b (sx_nth i 2))) e.
+(* the TrimSpace oracle agrees with the ASCII model on ASCII payloads *)
+Definition wf_stdlog (i : sx) : bool :=
+  let p := sx_b (sx_nth i 3) in
+  if all_ascii p then bytes_eqb (sx_b (sx_nth i 4)) (ascii_trim p) else true.
+(* the schedule runs the program to completion *)
+Definition wf_lock (i : sx) : bool :=
+  (fin (run (locked_prog (dec_prog (sx_nth i 1))) (dec_sched (sx_nth i 2))) =?
+   total_calls (dec_prog (sx_nth i 1)))%nat.
 Definition wf (i : sx) : bool :=
-  match sx_z (sx_nth i 0) with
-  | 1 => let e := dec_expr (sx_nth i 1) in
-         x_syncer e && x_typed e && x_dom (zlen (sx_b (sx_nth i 2))) e
-  | 2 =>
-      match sx_z (sx_nth i 1) with
-      | 0 => let p := sx_b (sx_nth i 3) in
-             if all_ascii p then bytes_eqb (sx_b (sx_nth i 4)) (ascii_trim p) else true
-      | 1 => true
-      | 2 => true
-      | _ => 0 <=? sx_z (sx_nth i 2)
-      end
-  | _ => (* the schedule runs the program to completion *)
-      (fin (run (locked_prog (dec_prog (sx_nth i 1))) (dec_sched (sx_nth i 2))) =?
-       total_calls (dec_prog (sx_nth i 1)))%nat
-  end.
+  if kind i =? 1 then wf_comb i
+  else if kind i =? 2 then
+    (if wkind i =? 0 then wf_stdlog i
+     else if wkind i =? 1 then true
+     else if wkind i =? 2 then true
+     else 0 <=? sx_z (sx_nth i 2))
+  else wf_lock i.
